@@ -29,7 +29,7 @@ RULES = {
 
 ASSUMPTIONS = [
     "sampling, not enumeration: a clean batch is evidence, not proof",
-    "bounds: <=28 steps/run, <=4 qubits, nesting depth <=3, unrolled size <=120 operations, dyadic durations (exact float arithmetic)",
+    "bounds: quick <=28 steps/run and <=4 qubits, thorough <=42 steps and <=5 qubits; ~1% (quick) / ~2% (thorough) long runs of 110-300 steps with up to 320 operations per circuit; nesting depth <=3, unrolled size <=120 operations (400 in long runs), dyadic durations (exact float arithmetic)",
     "caller sessions are interleaved sequentially; no pre-emption inside a library call (no property promises thread safety)",
     "duration sources exercised: global registry (boot file, override windows), fixed, DurationRegistry; user callables (DynamicDurationStrategy) and direct field assignment are outside the workload",
     "a sub-circuit's explicit relation to an operation of its future parent cannot be expressed through add() and is outside the workload",
@@ -147,6 +147,7 @@ def main(argv=None):
     seed = int(os.environ.get("VERIF_SEED", "1"))
     profile = a.profile or prop
     print(f"qcosim check property={prop} tier={tier} VERIF_SEED={seed} jobs={a.jobs}", flush=True)
+    os.environ["QCOSIM_TIER"] = tier     # workers inherit it: the thorough tier also widens the generator's bounds
     total = runner.search(prop, profile, tier, seed, a.jobs, budget=a.budget)
     if prop == "C15" and tier == "thorough":
         runner.search_real_openql(prop, profile, seed, a.jobs, 1600, total)
